@@ -2,6 +2,7 @@ package props
 
 import (
 	"fmt"
+	"io"
 
 	"fgverif/gen"
 	"fgverif/impl"
@@ -167,10 +168,36 @@ func (p c16) Run(c *mon.Ctx, i int) {
 	small := gen.Make(r, "alpha4", r.Range(1, 40)).B
 
 	fs, ss := &Sink{}, &Sink{}
-	fw, ferr := NewWriter(c.API, s, fs)
+	// destinations are handed over as pointers, or (a third of the cases) as
+	// values of a struct type that is not comparable, like a func-typed adapter
+	byValue := i%3 == 2
+	dst := func(k *Sink) io.Writer {
+		if byValue {
+			return valSink{s: k}
+		}
+		return k
+	}
+	var fw, sw impl.Writer
+	var ferr, serr error
 	twin := s
 	twin.Win4K = false
-	sw, serr := NewWriter(impl.Stdlib, twin, ss)
+	zeroValue := (s.Wrapper == "gzip" || s.Wrapper == "zlib") && s.Level == 6 && i%4 == 1
+	if zeroValue {
+		// var z gzip.Writer / zlib.Writer; z.Reset(dst): legal in the standard library
+		if s.Wrapper == "gzip" {
+			fw, sw = c.API.ZeroGzipWriter(), impl.Stdlib.ZeroGzipWriter()
+		} else {
+			fw, sw = c.API.ZeroZlibWriter(), impl.Stdlib.ZeroZlibWriter()
+		}
+		if pv, st := mon.Safe(func() { fw.Reset(dst(fs)) }); pv != nil {
+			c.Violate("panic|zero-value-reset|"+s.Wrapper, fmt.Sprintf("Reset on a zero-value %s Writer panicked: %v", s.Wrapper, pv), map[string]interface{}{"stack": st})
+			return
+		}
+		sw.Reset(ss)
+	} else {
+		fw, ferr = NewWriter(c.API, s, dst(fs))
+		sw, serr = NewWriter(impl.Stdlib, twin, ss)
+	}
 	if ferr != nil || serr != nil {
 		return
 	}
@@ -180,7 +207,7 @@ func (p c16) Run(c *mon.Ctx, i int) {
 		defer g.DropGuards()
 	}
 	seqStr := fmt.Sprint(seq)
-	desc := map[string]interface{}{"setting": s.String(), "sequence": seqStr, "large_write": fmt.Sprintf("%s/%d", lfam, lsize)}
+	desc := map[string]interface{}{"setting": s.String(), "sequence": seqStr, "large_write": fmt.Sprintf("%s/%d", lfam, lsize), "destination_by_value": byValue, "zero_value_writer": zeroValue}
 	var written []byte // data accepted in the current stream before its first nil Close
 	closedAt := -1     // emitted length of fs at the first nil Close of the current stream
 	sawAfterClose, sawResetAfterData := false, false
@@ -205,7 +232,7 @@ func (p c16) Run(c *mon.Ctx, i int) {
 				fe = fw.Close()
 			case "R":
 				fs = &Sink{}
-				fw.Reset(fs)
+				fw.Reset(dst(fs))
 			}
 		})
 		switch op {
@@ -297,3 +324,12 @@ func (p c16) Run(c *mon.Ctx, i int) {
 		c.Sample(desc)
 	}
 }
+
+// valSink is a destination passed by value whose type is not comparable
+// (slice field): interface values holding it cannot be compared with ==.
+type valSink struct {
+	s   *Sink
+	pad []int
+}
+
+func (v valSink) Write(p []byte) (int, error) { return v.s.Write(p) }
